@@ -114,7 +114,7 @@ def tup(x):
     return x
 
 
-ALL_TASKS = ["beat", "onset", "tempo", "key", "alignment", "pattern", "melody", "multipitch"]
+ALL_TASKS = ["beat", "onset", "tempo", "key", "alignment", "pattern", "melody", "multipitch", "segment"]
 
 
 def tasks():
